@@ -94,6 +94,29 @@ theorem C09_hit_iff (cfg : Cfg) (ops : List Op) :
   · rintro ⟨w, hw, ht'⟩
     exact ⟨w, List.mem_filter.2 ⟨hw, ht'⟩⟩
 
+/-- `is_hit_mc_truth` after any history: it leaves the antenna exactly as `waveforms` does (no further
+state), and it is true iff some trigger-satisfying waveform would NOT have triggered on its noise alone
+(the current realisation at the same absolute times); a noiseless antenna answers `is_hit`. -/
+theorem C09_mc_truth (cfg : Cfg) (ops : List Op) :
+    step cfg (run cfg ops) .qHitMC =
+      (afterWaveforms cfg ops,
+       .flag (if cfg.noisy then
+          ((allFull cfg (afterWaveforms cfg ops).master ops).filter cfg.trig).any
+            (fun w => !cfg.trig (noiseWave cfg ((afterWaveforms cfg ops).master.getD 0) (timesOf w)))
+        else decide (0 < ((allFull cfg (afterWaveforms cfg ops).master ops).filter cfg.trig).length))) ∧
+    (step cfg (run cfg ops) .qWaves).1 = afterWaveforms cfg ops := by
+  refine ⟨?_, rfl⟩
+  obtain ⟨h1, h2, h3, _⟩ := refreshAll_spec cfg (run cfg ops) (inv_run cfg ops)
+  obtain ⟨hI, ht⟩ := refreshTrig_spec cfg _ h1
+  have hws : triggeredOf (afterWaveforms cfg ops).allWaves (afterWaveforms cfg ops).triggers =
+      (allFull cfg (afterWaveforms cfg ops).master ops).filter cfg.trig := by
+    show triggeredOf (refreshAll cfg (run cfg ops)).allWaves
+      (refreshTrig cfg (refreshAll cfg (run cfg ops))).triggers = _
+    rw [ht, triggeredOf_map, h3, run_signals]
+    rfl
+  rw [step_qHitMC_eq]
+  exact mcOut_eq cfg (afterWaveforms cfg ops) hI _ hws
+
 /-- `clear` returns the antenna to the empty state (the noise master is dropped exactly when
 `reset_noise` is set); what was received before is forgotten by every later query. -/
 theorem C09_clear_is_init (cfg : Cfg) (st : State) (reset : Bool) (ops ops' : List Op) :
@@ -204,6 +227,12 @@ theorem C09_noise_absolute (cfg : Cfg) (st : State) (e : Nat) (h : st.master = s
           split
           · rw [touch_of_some st hne]; exact h
           · exact h
+        | qHitMC =>
+          have hX : (refreshTrig cfg (refreshAll cfg st)).master = some e := refreshAll_spec' cfg st e h
+          show (step cfg st .qHitMC).1.master = some e
+          rcases step_qHitMC_fst cfg st with h1 | h1
+          · rw [h1]; exact hX
+          · rw [h1, touch_of_some _ (by simp [hX])]; exact hX
       · intro op' hop'; exact hno op' (List.mem_cons_of_mem _ hop')
   refine ⟨hm, ?_, ?_⟩
   · show Out.wave (ts.map (fun t => (t, cfg.noise ((touch st').master.getD 0) t))) = _
@@ -316,6 +345,10 @@ example : (step cfgT (run cfgT [.recv s1, .qAll, .recv s2, .qWaves, .recv far]) 
 example : (run cfgN [.recv s1, .qAll, .clear true, .recv s2, .qFull [0, 1]]).master = some 1 := by
   decide +kernel
 example : LinearFE halfFe ∧ LinearFE idFe := ⟨linearFE_half, linearFE_id⟩
+-- is_hit_mc_truth on a noisy threshold antenna: the signal triggers, its noise alone does not
+example : (step ⟨true, thrTrig 2, detNoise⟩ (run ⟨true, thrTrig 2, detNoise⟩ [.recv s1]) .qHitMC).2 = .flag true ∧
+    (step ⟨true, thrTrig 2, detNoise⟩ (run ⟨true, thrTrig 2, detNoise⟩ [.recv s2]) .qHitMC).2 = .flag false := by
+  decide +kernel
 example : leadInTimes (5/2) (uniformGrid 0 1 3) = [-3, -2, -1, 0, 1, 2] := by decide +kernel
 example : (sysStep ⟨cfgT, 5/2, halfFe, cfgT.trig⟩
     (sysRun ⟨cfgT, 5/2, halfFe, cfgT.trig⟩ [.recv s1, .qAll, .recv s2]) .qAll).2 =
